@@ -336,6 +336,29 @@ class NestedHelper(Helper):
                                 conforms(z3.Select(D(c.post, r), s_of(nm)), fld(st, a, "type")))),
         ]
 
+    # cut before `return WithAttrMethod.with_attr(...)`: what is about to be stored on the copy is not the very object the receiver
+    # holds in that slot (C02), unless that object is one no copy ever duplicates (atoms, leaves, do_not_copy instances)
+    def own_value(c, st):
+        eng, pre, o = c.eng, c.pre, c.self
+        nm = fld(pre, eng.to_val(pre, c.attr_spec), "name")
+        # the value handed on is the `_new_value=<name>` argument of the return statement
+        import ast
+        fn = eng.ft.func(c.con.qual)
+        ret = [n for n in fn.node.body if isinstance(n, ast.Return) and ast.unparse(n).startswith("return WithAttrMethod.with_attr(")][0]
+        arg = [k.value for k in ret.value.keywords if k.arg == "_new_value"]
+        if not arg or not isinstance(arg[0], ast.Name) or arg[0].id not in st.env:
+            # computed inside the call expression: nothing stands between the computation and the store
+            return [("c02.own-value", z3.BoolVal(False))]
+        v = eng.to_val(st, st.env[arg[0].id])
+        x0 = z3.Select(D(st, o), s_of(nm))
+        never = z3.Or(atomic(st, v), leaf(st, v), z3.And(is_spec(eng, st, v), dnc_class(eng, st, v)))
+        return [("c02.own-value", z3.Or(c.con.in_place(c), v != x0, never)),
+                ("receiver", unchanged_obj(pre, st, o)),
+                ("value", z3.Not(is_absent(v))),
+                ("active", eng.truthy(pre, eng.to_val(pre, c._if)))]
+
+    cuts = (("return WithAttrMethod.with_attr(", "store", own_value),)
+
     def exc_frozen(self, c):
         eng, st, o = c.eng, c.pre, c.self
         return [("c07.why", frozen(eng, st, o)), ("c04.unchanged", unchanged_obj(st, c.post, o))]
